@@ -5,9 +5,9 @@ import os, json, struct
 from vlib import *
 
 OWN = {
-    "C12": {"state", "accessor", "retval", "lookup", "capacity", "dump", "copy"},
+    "C12": {"state", "accessor", "retval", "lookup", "capacity", "dump", "copy", "crash"},
     "C13": {"leak", "ledger", "crash", "copy", "ledger-trace"},
-    "C18": {"equality"},
+    "C18": {"equality", "crash"},
 }
 
 
